@@ -47,9 +47,10 @@ def statements():
     st_try = st.tuples(st.just("try"), st.sampled_from(["ValueError", "KeyError"]))
     st_close = st.tuples(st.just("close"), st.none())
     st_name = st.tuples(st.just("name"), st.none())
+    st_acc = st.tuples(st.just("acc"), st.none())  # touches definition-time state (a mutable default / module-level list)
     st_stdio = st.tuples(st.just("stdio"), st.tuples(st.sampled_from(["print", "stdout", "stderr", "fd1", "fd2", "system"]),
                                                      st.one_of(st.integers(0, 200), st.integers(0, 70000), st.integers(60000, 1000000))))
-    return st.lists(st.one_of(st_send, st_send, st_assign, st_loop, st_import, st_try, st_close, st_name, st_stdio),
+    return st.lists(st.one_of(st_send, st_send, st_assign, st_loop, st_import, st_try, st_close, st_name, st_stdio, st_acc),
                     min_size=1, max_size=8)
 
 
@@ -86,6 +87,9 @@ def render_body(stmts, raise_at, park_at, indent, exc="ValueError"):
             lines.append("    channel.send('close-refused')")
         elif kind == "name":
             lines.append("channel.send(__name__)")
+        elif kind == "acc":
+            lines.append("acc.append(a)")
+            lines.append("channel.send(len(acc))")
         elif kind == "stdio":
             how, n = arg
             lines.append("import os, sys")
@@ -130,7 +134,7 @@ def predict(stmts, raise_at, park_at, a, b, exc="ValueError"):
     src = src.replace("print(", "(lambda *_: 0)(").replace("sys.stdout.write(", "(lambda *_: 0)(").replace(
         "sys.stderr.write(", "(lambda *_: 0)(").replace("sys.stdout.flush()", "None").replace("sys.stderr.flush()", "None")
     rec = Recorder()
-    env = {"channel": rec, "a": a, "b": b, "__name__": "__channelexec__"}
+    env = {"channel": rec, "a": a, "b": b, "__name__": "__channelexec__", "acc": []}
     err = None
     try:
         exec(compile(src, "<predict>", "exec"), env)
@@ -351,7 +355,7 @@ class Exec(Part):
             body, raise_line = render_body(stmts, p["raise_at"], p["park_at"], p["indent"], exc)
             # a source string cannot carry arguments: a and b are literals in the text (repr() of an arbitrary value is
             # not a faithful literal - set order, -0j - so only the function forms get generated values, as kwargs)
-            pre = [" " * p["indent"] + f"a = {a!r}", " " * p["indent"] + "b = 'plain'"]
+            pre = [" " * p["indent"] + f"a = {a!r}", " " * p["indent"] + "b = 'plain'", " " * p["indent"] + "acc = []"]
             want_items, want_err = predict(stmts, p["raise_at"], p["park_at"], a, "plain", exc)
             text = "\n".join(pre + body) + "\n"
             ch = gw.remote_exec(text)
@@ -359,12 +363,12 @@ class Exec(Part):
         elif form in ("function", "nested"):
             body, raise_line = render_body(stmts, p["raise_at"], p["park_at"], 8 if form == "nested" else 4, exc)
             if form == "function":
-                text = lead + "def f(channel, a, b=3, extra=None):\n" + "\n".join(body) + "\n"
+                text = lead + "def f(channel, a, b=3, extra=None, acc=[]):\n" + "\n".join(body) + "\n"
                 mod, path = self._module(text)
                 fn = mod.f
                 line = None if raise_line is None else p["lead"] + 1 + raise_line + 1
             else:
-                text = lead + "def make():\n    def f(channel, a, b=3, extra=None):\n" + "\n".join(body) + "\n    return f\n"
+                text = lead + "def make():\n    def f(channel, a, b=3, extra=None, acc=[]):\n" + "\n".join(body) + "\n    return f\n"
                 mod, path = self._module(text)
                 fn = mod.make()
                 line = None if raise_line is None else p["lead"] + 2 + raise_line + 1
@@ -375,11 +379,11 @@ class Exec(Part):
             where = path
         else:
             body, raise_line = render_body(stmts, p["raise_at"], p["park_at"], 4, exc)
-            text = lead + f"a = {a!r}\nb = 'modb'\nif __name__ == '__channelexec__':\n" + "\n".join(body) + "\n"
+            text = lead + f"a = {a!r}\nb = 'modb'\nacc = []\nif __name__ == '__channelexec__':\n" + "\n".join(body) + "\n"
             want_items, want_err = predict(stmts, p["raise_at"], p["park_at"], a, "modb", exc)
             mod, path = self._module(text)
             ch = gw.remote_exec(mod)
-            where, line = path, (None if raise_line is None else p["lead"] + 3 + raise_line + 1)
+            where, line = path, (None if raise_line is None else p["lead"] + 4 + raise_line + 1)
         # ---- observe
         got, err = [], None
         parked_seen = False
@@ -437,8 +441,25 @@ class Exec(Part):
             needle = f'File "{where}", line {line}'
             if needle not in err:
                 raise Violation("exec.traceback-location", f"{form}: RemoteError does not name {needle!r}: {err[-400:]!r}", site=form)
+        again = False
+        if form in ("function", "nested") and p["raise_at"] is None and p["park_at"] is None and any(k == "acc" for k, _ in stmts):
+            # "runs exactly the given code": sending the same function again starts from its definition again
+            again = True
+            got2 = []
+            try:
+                ch2 = gw.remote_exec(fn, a=a, b=b, extra=extra)
+                while True:
+                    try:
+                        got2.append(ch2.receive(60))
+                    except EOFError:
+                        break
+            except BaseException as e:  # noqa: BLE001
+                raise Violation("exec.second-run-raises", exc=e) from None
+            if [V.fp(x) for x in got2] != [V.fp(x) for x in want_items]:
+                raise Violation("exec.second-run-differs", f"{tname}/{form}: the same function sent a second time produced "
+                                f"{got2!r:.200}, the first time (and the local interpretation) {want_items!r:.200}", site=form)
         big = any(k == "stdio" and a_[1] >= 65536 for k, a_ in stmts)
-        labels = [tname, "form:" + form] + sorted({"stmt:" + k for k, _ in stmts})
+        labels = [tname, "form:" + form] + (["sent-twice"] if again else []) + sorted({"stmt:" + k for k, _ in stmts})
         if want_err is not None:
             labels.append("raises")
         if parked_seen:
